@@ -190,7 +190,7 @@ WS_MODES_MARKUP = ('Markup',)
 WS_MODES_MATH = ('Math', 'MathDelimited')        # (around sub/superscript, fraction and root operators Typst ignores whitespace)
 
 
-def eval_tree(t, parent=None, root=True):
+def eval_tree(t, parent=None, root=True, math_nl=False):
     """the tree as evaluation sees it: like norm_tree, but whitespace that Typst's evaluator can see is kept - in markup a Space between two
     siblings (one marker, whether it holds a line break or not: both are a space to Typst) and a Parbreak; in math a Space between two
     siblings; the blank at the inner edges of a content block / strong / emph body.  Dropped: whitespace in code, at the edges of the document,
@@ -200,6 +200,8 @@ def eval_tree(t, parent=None, root=True):
         if kind in ('Comma', 'LineComment', 'BlockComment', 'RawTrimmed'):
             return None
         if kind == 'Space':
+            if math_nl and parent in WS_MODES_MATH and any(ord(ch) in T.TYPST_NEWLINES for ch in x):
+                return ('Space', 'line break')         # C09: a blank between math atoms holds a line break iff it did in the source
             return ('Space',) if parent in WS_MODES_MARKUP + WS_MODES_MATH else None
         if kind == 'Parbreak':
             return ('Parbreak',)
@@ -234,7 +236,7 @@ def eval_tree(t, parent=None, root=True):
             if pending:
                 x2.append(('Space', ' '))
         x = x2
-    kids = [eval_tree(c, kind, False) for c in x]
+    kids = [eval_tree(c, kind, False, math_nl) for c in x]
     # a comment may move across the blank next to it: blanks around comments are not compared
     raw_kinds = [c[0] for c in x]
     keep = []
@@ -402,7 +404,7 @@ CONSTRUCTS = [
     ('f(..a,k:v)', 'f(..a,\nk: v)'), ('(not a)', '(not\n a)'), ('(-a)', '(-\na)'), ('(a in b)', '(a\n in b)'), ('(a:1).k', '(a:\n1).k'), ('f(g(h(a)))', 'f(g(\nh(a)))'),
     ('table(columns:2,[a],[b])', 'table(\ncolumns: 2,\n[a], [b],\n[c])'), ('context x', 'context {\nx\n}'), ('let (a,b)=c', 'let (a,\n b) = c'), ('(a,b)=(b,a)', '(a, b) =\n (b, a)'),
     ('f(x)(y)', 'f(x)(\ny)'), ('f(a)[b][c]', 'f(a)[b][\nc]'), ('a.b[c]', 'a.b[\nc]'), ('(a: b, ..c)', '(a: b,\n..c)'), ('"s"+"t"', '"s" +\n"t"'), ('1pt+2em', '1pt\n+ 2em'), ('none', 'none'),
-    ('$a+b$', '$ a +\n b $'), ('$f(a,b;c)$', '$ f(a, b;\n c) $'), ('$x_1^2/y$', '$ x_1^2 /\n y $'), ('`r`', '```\nr\n```'),
+    ('$a+b$', '$ a +\n b $'), ('$#x_a$', '$ #x _a\n ^b $'), ('$a_#f(1)^2$', '$ a_#f(1)\n^2 $'), ("$#x'$", "$ #x ' $"), ('$a\nb$', '$ a\n b $'), ('$f(a,b;c)$', '$ f(a, b;\n c) $'), ('$x_1^2/y$', '$ x_1^2 /\n y $'), ('`r`', '```\nr\n```'),
 ]
 CONTEXTS = [
     ('own line', '#%s\n'), ('text line', 't #%s u\n'), ('list item', '- #%s\n'), ('list item with text', '- t #%s\n  u\n'), ('content block', '#[t #%s]\n'), ('strong', '*#%s*\n'), ('heading', '= H #%s\n'),
@@ -444,15 +446,22 @@ def families(S, comments=True, seed=0, limit=None):
                 add(t)
             if comments:
                 for g in _token_gaps(spelling):
-                    for cm in (' /* c */ ', ' // c\n'):
+                    for cm in (' /* c */ ', ' // c\n', '/* c */', '// c\n'):
                         v = spelling[:g] + cm + spelling[g:]
                         for cname, tpl in (CONTEXTS[0], CONTEXTS[1], CONTEXTS[10]):
                             if not code and '#%s' not in tpl:
                                 continue
                             add(tpl % v if code else tpl.replace('#%s', '%s') % v)
     if limit is not None and len(docs) > limit:
+        # always in: embedded code inside an equation with a comment next to it (two mode switches and a comment: where several seeded changes hid);
+        # the rest is sampled
+        import re as _re
+        prio = [d_ for d_ in docs if _re.search(r'\$[^$]*#[^$]*(//|/\*)', d_)]
         rnd = random.Random(1000 + seed)
-        docs = rnd.sample(docs, limit)
+        if len(prio) > limit // 3:
+            prio = rnd.sample(prio, limit // 3)
+        rest = [d_ for d_ in docs if d_ not in set(prio)]
+        docs = prio + rnd.sample(rest, min(len(rest), limit - len(prio)))
     ok = []
     for d in docs:
         if S.driver.call('erroneous', hexs(d))[1] == '0':
@@ -519,6 +528,7 @@ EVAL_DOCS = [
 NORMALISE_DOCS = [
     '#f(((a+b)))\n', '#f((a+b))\n', '#let x = f(((aaaa + bbbb)))\n', '#(((a)))\n', '#f(((g(x))))\n', '#f(((a.b)))\n', '#f((-a))\n', '#f(((a)), ((b)))\n', '#f(((a, b)))\n', '#f((((a: 1))))\n',
     '#let x = ((a + b))\n', '#let x = (((a, b)))\n', '#if ((a)) { b }\n', '#while (((a))) { b }\n', '#for x in ((y)) { z }\n', '#(((a)) + ((b)))\n', '#(k: ((v)))\n', '#((a,), ((b),))\n',
+    '#let f = (((a, b))) => a + b\n', '#{(((a,b)))=>a}\n', '#let f = ((a, b)) => a\n', '#let (((a, b))) = c\n', '#for ((k, v)) in d {}\n', '#let f((((a, b)))) = a\n', '#let f = (((_))) => 1\n', '#let f = ((..a)) => a\n',
     '#let f = x => ((x))\n', '#let f = ((x)) => x\n', '#f(((x) => x))\n', '#show: ((it)) => it\n', '#set text(((red)))\n', '#f((([a])))\n', '#f((({ a })))\n', '#f(((a))[b])\n' if False else '#f(((a)))[b]\n',
     '#f(a,)\n', '#f(a,b,)\n', '#(a,b,)\n', '#(a: 1,)\n', '#let f(a,) = 1\n', '#f(a;)\n' if False else '#{a;}\n', '#{a;;b}\n', '#f( (a) )\n', '#f(\n(\n(a)))\n', '#f(((a\n+ b)))\n', '$ f(((a))) $\n', '$ ((a)) $\n',
     '#{a      .b      .c(dddddddddd, eeeeeeeeee)}\n', '#{\n  let result = some_module\n                  .sub_module\n                  .function_name(argument_one, argument_two, argument_three, argument_four)\n}\n',
@@ -627,12 +637,8 @@ def explore(S, docs, tabs=(2,), prop='C03', widths=(0, 40, 1 << 30)):
                         return
                     if prop in ('C02', 'C09'):
                         S.absorb(m)
-                        try:
-                            src_model = None
-                            n1 = eval_tree(tree)
-                        except Exception:
-                            n1 = None
-                        n2 = eval_tree(tree2)
+                        n1 = eval_tree(tree, math_nl=prop == 'C09')
+                        n2 = eval_tree(tree2, math_nl=prop == 'C09')
                         diff = first_difference(n1, n2)
                         ctx.must_hold(diff is None, 'C02:evaluation-visible-tree-changed' if prop == 'C02' else 'C09:math-whitespace-or-display-flag-changed', lambda mdl: dict(describe(mdl), first=t1, difference=diff))
                         if src.count('`') >= 2 and prop == 'C02':
@@ -868,7 +874,7 @@ def confirm(S, info, prop='C03', only_width=False):
                 return dict(api='Typstyle::format_content', source=src, width=w, tab=info.get('tab', 2), output=out,
                             what='comments of %s change when formatted (width %d) to %s: %r -> %r' % (show(src), w, show(out), comment_list(t_src), comment_list(t_out)))
             if prop in ('C02', 'C09') and t_src is not None:
-                d = first_difference(eval_tree(t_src), eval_tree(t_out))
+                d = first_difference(eval_tree(t_src, math_nl=prop == 'C09'), eval_tree(t_out, math_nl=prop == 'C09'))
                 if d is None and prop == 'C02' and raw_lines(S, src) != raw_lines(S, out):
                     d = 'the text Typst extracts from a raw element changes'
                 if d:
@@ -903,6 +909,16 @@ KNOWN_DEFECT_DOCS = {
 }
 
 
+def known_class(src):
+    """documents that show an open known finding, by what they have in common (generated families cannot be listed one by one)"""
+    import re as _re
+    if src in KNOWN_DEFECT_DOCS:
+        return KNOWN_DEFECT_DOCS[src]
+    if _re.search(r'\$[^$]*[^\s$]// c\n', src):
+        return 'line-comment-glued-to-a-token-inside-an-equation'
+    return None
+
+
 def site_of(src):
     """role of a document for the keys of known findings: its first construct"""
     s = src.lstrip()
@@ -917,7 +933,7 @@ def report(S, prop, found):
     groups = {}
     for lab, info in found:
         if lab.startswith(prop + ':') or (prop in ('C01', 'C02', 'C09', 'C06', 'C08') and lab.startswith('C04:')):
-            kid = KNOWN_DEFECT_DOCS.get(info.get('seed', ''))
+            kid = known_class(info.get('seed', ''))
             groups.setdefault((lab, 'document:' + kid if kid else site_of(info.get('seed', ''))), []).append(info)
     for (lab, site), infos in sorted(groups.items()):
         hit = None
